@@ -1342,9 +1342,13 @@ func c33Main(t *testing.T, r c33Reporter, caps c33Caps, build c33Build, replay m
 
 	idx := 0
 	samples := 0
+	sectionMs := map[string]int64{} // budget diagnostics only (wall clock; never consulted by a monitor)
+	defer func() { r.Note("section_wall_ms", sectionMs) }()
 	runOne := func(c c33Case, section string) {
 		id := fmt.Sprintf("%s-%d", section, idx)
 		idx++
+		t0 := time.Now()
+		defer func() { sectionMs[section] += time.Since(t0).Milliseconds() }()
 		w := c33NewWorld(c, caps, id)
 		cycles, quiet := c33RunCase(t, w, build)
 		firedN := 0
